@@ -12,6 +12,9 @@ from .f4_bundles import BUNDLES, bref, b
 BUND = dict(BUNDLES)
 BUND["BXY"] = {"sigs": [("y", 2, "sig")], "subs": []}
 BUND["BC"] = {"sigs": [("x_y", 2, "sig"), ("x_y_", 1, "sig")], "subs": [("x", "BXY", False)]}  # members whose flattened names coincide
+BUND["BX2"] = {"sigs": [("x_y", 2, "sig")], "subs": []}  # next to an instance `bq_x` of BXY: `bq` + `x_y` and `bq_x` + `y` read alike
+BUND["BX2K"] = {"sigs": [("x_y", 2, "sig"), ("k", 1, "sig")], "subs": []}
+BUND["BXYK"] = {"sigs": [("y", 2, "sig"), ("k", 1, "sig")], "subs": []}
 BUND["Diff"] = {"sigs": [("p", 1, "sig"), ("n", 1, "sig")], "subs": [], "builtin": "Diff"}
 
 # rule -> (generated base name, width of the generated object or None for instances)
@@ -24,6 +27,10 @@ RULES = {
     "nested_member": ("b2_sub_y", 2),  # internal bundle instance b2 of B2
     "member_clash": ("bc_x_y", 2),   # internal bundle bc of BC: members x_y, x_y_ and x.y all want the name bc_x_y(_)
     "member_clash_port": ("pc_x_y", 2),  # the same on a bundle port of the top module
+    "two_bundles": ("bq_x_y", 2),    # internal bundle instances bq (member x_y) and bq_x (member y): two invented names coincide
+    "two_bundle_ports": ("bb1_x_y", 2),  # the same on two bundle ports of a middle module, the second one's member used inside
+    "two_bundle_ports_first": ("bb1_x_y", 2),  # ... the first one's member used inside
+    "two_bundle_ports_unused": ("bb1_x_y", 2),  # ... neither used inside: only the port list can tell
     "ref_bundle": ("g0_bp", None),   # g1 = InB(bp=g0.bp): the implicit *bundle* behind a reference to a bundle-valued port
     "ref_bundle_member": ("g0_bp_y", 2),  # ... and its flattened member
     "array_elem": ("arr_1", None),   # arr = 2 * Inner
@@ -32,7 +39,8 @@ RULES = {
 ADV_KINDS = ["sig", "port", "inst", "array", "binst", "ncname"]
 # the object whose name starts the generated name, per rule (stretched for the length-limit cases)
 TRIG_OBJ = {"ref_group": "i0", "noconn": "i0", "noconn_named": "nnn", "bundle_member": "bb", "bundle_port": "pb", "nested_member": "b2",
-            "member_clash": "bc", "member_clash_port": "pc", "array_elem": "arr", "pair_elem": "pr", "ref_bundle": "g0", "ref_bundle_member": "g0"}
+            "member_clash": "bc", "member_clash_port": "pc", "array_elem": "arr", "pair_elem": "pr", "ref_bundle": "g0", "ref_bundle_member": "g0",
+            "two_bundles": "bq", "two_bundle_ports": "bb1", "two_bundle_ports_first": "bb1", "two_bundle_ports_unused": "bb1"}
 MAXLEN = 511  # ElabPass.flatname's documented limit
 SUFFIX_SETS = [c for r in (1, 2, 3) for c in itertools.combinations(("", "_", "__"), r)]
 
@@ -126,6 +134,25 @@ def design(desc):
                  ("inst", "t0", ("ext", "P2", {"k": 20}), [("a", bref("pc", "x_y"))]),
                  ("inst", "t1", ("ext", "P1", {"k": 21}), [("a", bref("pc", "x_y_"))]),
                  ("inst", "t2", ("ext", "P2", {"k": 22}), [("a", bref("pc", "x", "y"))])]
+    elif rule == "two_bundles":
+        trig += [("binst", "bq", "BX2"), ("binst", "bq_x", "BXY"),
+                 ("inst", "i0", ("mod", "Inner"), [("a", sig("s")), ("b", bref("bq", "x_y"))]),
+                 ("inst", "i1", ("mod", "Inner"), [("a", sig("s")), ("b", bref("bq_x", "y"))])]
+    elif rule in ("two_bundle_ports", "two_bundle_ports_first"):
+        used = bref("bq_x", "y") if rule == "two_bundle_ports" else bref("bq", "x_y")
+        mods["Mid"] = {"name": "Mid", "style": "class", "decls": [
+            ("bport", "bq", "BX2", False, None), ("bport", "bq_x", "BXY", False, None), ("sig", "ms", 1),
+            ("inst", "i0", ("mod", "Inner"), [("a", sig("ms")), ("b", used)])]}
+        trig += [("binst", "bb1", "BX2"), ("binst", "bb2", "BXY"), ("inst", "m", ("mod", "Mid"), [("bq", ("b", "bb1")), ("bq_x", ("b", "bb2"))]),
+                 ("inst", "t0", ("ext", "P2", {"k": 20}), [("a", bref("bb1", "x_y"))]),
+                 ("inst", "t1", ("ext", "P2", {"k": 22}), [("a", bref("bb2", "y"))])]
+    elif rule == "two_bundle_ports_unused":
+        mods["Mid"] = {"name": "Mid", "style": "class", "decls": [
+            ("bport", "bq", "BX2K", False, None), ("bport", "bq_x", "BXYK", False, None), ("sig", "mv", 2),
+            ("inst", "i0", ("mod", "Inner"), [("a", bref("bq", "k")), ("b", sig("mv"))]), ("inst", "i1", ("mod", "Inner"), [("a", bref("bq_x", "k")), ("b", sig("mv"))])]}
+        trig += [("binst", "bb1", "BX2K"), ("binst", "bb2", "BXYK"), ("inst", "m", ("mod", "Mid"), [("bq", ("b", "bb1")), ("bq_x", ("b", "bb2"))]),
+                 ("inst", "t0", ("ext", "P2", {"k": 20}), [("a", bref("bb1", "x_y"))]), ("inst", "t1", ("ext", "P2", {"k": 22}), [("a", bref("bb2", "y"))]),
+                 ("inst", "t2", ("ext", "P1", {"k": 23}), [("a", bref("bb1", "k"))]), ("inst", "t3", ("ext", "P1", {"k": 24}), [("a", bref("bb2", "k"))])]
     elif rule in ("ref_bundle", "ref_bundle_member"):
         mods["InB"] = {"name": "InB", "style": "class", "decls": [
             ("bport", "bp", "B1", False, None),
